@@ -6,8 +6,9 @@ cd "$(dirname "$0")"
 export CARGO_NET_OFFLINE=true
 python3 -m compileall -q vlib >/dev/null
 python3 - <<'PY'
-import json, jsonschema, sys
+import json, sys
 try:
+    import jsonschema
     m = json.load(open('MANIFEST.json'))
     jsonschema.validate(m, json.load(open('/root/.vp/MANIFEST.schema.json')))
 except ImportError:
